@@ -165,7 +165,7 @@ CLAIMS.update({
                      "type.__call__ protocol (A2: __init__ is skipped when __new__ returns a non-instance; subclasses inherit "
                      "__new__); IndexedCache's flat store and the no-domain branch of Variable._evaluate__ are covered by the "
                      "bounded registry-history stand-in (random histories of concrete / symbolic construction, clearing, "
-                     "queries over a three-class hierarchy), not proved"),
+                     "queries at once and deferred, rule inference, over a hierarchy four levels deep with undecorated subclasses and a hand-written __init__), not proved"),
 })
 NOT_APPLICABLE = {}
 
@@ -218,7 +218,8 @@ ORACLES = {
                     depth=2, n=3),
             _oracle('random rule trees over two variables (result cache off)', 200, 4000, kind='rdrtree', nvars=2, rules=5, depth=3,
                     n=3, caching=False)],
-    'C14': [_oracle('registry histories: concrete / symbolic construction, clearing, no-domain queries', 200, 3000, kind='registry')],
+    'C14': [_oracle('registry histories: concrete / symbolic construction, clearing, no-domain queries', 300, 4000, kind='registry'),
+            _oracle('registry histories without clearing, 16 steps', 100, 2000, kind='registry', clear=False, steps=16)],
     'C13': [_oracle('predicate form vs explicit query, mixed-type domains, positional and keyword fields', 250, 4000, kind='predform', allow_empty=True)],
     'C04': [_oracle('histories of full / partial / aborted evaluations (result cache on)', 200, 3000, kind='history'),
             _oracle('histories (result cache off)', 100, 1500, kind='history', caching=False),
